@@ -101,37 +101,150 @@ func fxWrites(c *Ctx, instrs []ssa.Instruction, isKey func(ssa.Value) bool, mapV
 	return
 }
 
+// fxBind maps parameters of a followed helper to the constant runes passed at
+// the call site (`unescape(s, quote, '`')`).
+type fxBind map[*ssa.Parameter]rune
+
 // fxRuneTables extracts every rune translation table of fn.
-func fxRuneTables(c *Ctx, fn *ssa.Function) []*fxRuneTable {
+//
+// switch / if-chain form: a chain of comparisons of one rune (the key) with
+// constants, at least one arm of which writes a constant, marks the head of a
+// table. The table itself is obtained by abstract evaluation: for every rune the
+// key is compared with between the head and its join block (constants and
+// parameters bound to constants) and for one ordinary rune, the comparisons are
+// decided, the single resulting path is followed to the join block and the
+// writes on it are the cell. Nested ifs in a default arm, several chains and
+// comparisons with a bound parameter are therefore all read alike.
+func fxRuneTables(c *Ctx, fn *ssa.Function, bind fxBind) []*fxRuneTable {
 	var out []*fxRuneTable
+	type cand struct {
+		d      *core.Dispatch
+		region map[*ssa.BasicBlock]bool
+		join   *ssa.BasicBlock
+	}
+	var cands []cand
 	for _, d := range core.Dispatches(fn) {
 		if !fxIsRune(d.Key.Type()) {
 			continue
 		}
-		key := d.Key
+		join := core.ImmediatePostDominator(d.Head)
+		region := map[*ssa.BasicBlock]bool{d.Head: true}
+		st := []*ssa.BasicBlock{d.Head}
+		for len(st) > 0 {
+			b := st[len(st)-1]
+			st = st[:len(st)-1]
+			for _, su := range b.Succs {
+				if su != join && !region[su] {
+					region[su] = true
+					st = append(st, su)
+				}
+			}
+		}
+		cands = append(cands, cand{d, region, join})
+	}
+	for i, cd := range cands {
+		nested := false
+		for j, o := range cands {
+			if i != j && o.region[cd.d.Head] && !cd.region[o.d.Head] {
+				nested = true // part of an enclosing table (e.g. an if inside its default arm)
+			}
+		}
+		if nested {
+			continue
+		}
+		key := cd.d.Key
 		isKey := func(v ssa.Value) bool { return v == key || core.SameCell(v, key) }
+		// value of a comparison operand: the key, a constant, or a bound parameter
+		operand := func(v ssa.Value, k rune) (rune, bool) {
+			if isKey(v) {
+				return k, true
+			}
+			if r, ok := core.ConstRune(v); ok {
+				return r, true
+			}
+			if p, ok := v.(*ssa.Parameter); ok {
+				if r, ok := bind[p]; ok {
+					return r, true
+				}
+			}
+			return 0, false
+		}
+		// the runes the key is compared with inside the region
+		keys := map[rune]bool{}
+		for b := range cd.region {
+			iff, ok := b.Instrs[len(b.Instrs)-1].(*ssa.If)
+			if !ok {
+				continue
+			}
+			if bin, ok := iff.Cond.(*ssa.BinOp); ok && (bin.Op == token.EQL || bin.Op == token.NEQ) {
+				for _, pair := range [][2]ssa.Value{{bin.X, bin.Y}, {bin.Y, bin.X}} {
+					if isKey(pair[0]) {
+						if r, ok := operand(pair[1], 0); ok && !isKey(pair[1]) {
+							keys[r] = true
+						}
+					}
+				}
+			}
+		}
 		t := &fxRuneTable{form: "switch/if-chain", fn: fn, entries: map[rune]string{}, pos: map[rune]string{}}
 		good := true
-		for _, a := range d.Arms {
-			s, n, ok := fxWrites(c, d.RegionInstrs(a), isKey, nil)
+		evalFor := func(k rune) (string, string) {
+			var ins []ssa.Instruction
+			seen := map[*ssa.BasicBlock]bool{}
+			b := cd.d.Head
+			for b != nil && b != cd.join && !seen[b] {
+				seen[b] = true
+				ins = append(ins, b.Instrs...)
+				switch term := b.Instrs[len(b.Instrs)-1].(type) {
+				case *ssa.If:
+					bin, ok := term.Cond.(*ssa.BinOp)
+					if !ok || (bin.Op != token.EQL && bin.Op != token.NEQ) {
+						good = false
+						return "", ""
+					}
+					x, okx := operand(bin.X, k)
+					y, oky := operand(bin.Y, k)
+					if !okx || !oky {
+						good = false
+						return "", ""
+					}
+					if (x == y) == (bin.Op == token.EQL) {
+						b = b.Succs[0]
+					} else {
+						b = b.Succs[1]
+					}
+				case *ssa.Jump:
+					b = b.Succs[0]
+				default:
+					b = nil // return / panic inside the table
+				}
+			}
+			s, n, ok := fxWrites(c, ins, isKey, nil)
 			if !ok {
 				good = false
 			}
 			t.consts += n
 			p := ""
-			if len(a.Block.Instrs) > 0 {
-				p = c.Pos(a.Block.Instrs[0])
-			}
-			for _, k := range a.Keys {
-				if r, ok := core.ConstRune(k); ok {
-					t.entries[r] = s
-					t.pos[r] = p
+			for _, in := range ins {
+				if call, isCall := in.(*ssa.Call); isCall && strings.Contains(c.P.CalleeName(call), ").Write") {
+					p = c.Pos(call)
+					break
 				}
 			}
-			if a.Default {
-				t.def, t.defPos, t.hasDef = s, p, true
+			if p == "" && len(ins) > 0 {
+				p = c.Pos(ins[len(ins)-1])
 			}
+			return s, p
 		}
+		for k := range keys {
+			t.entries[k], t.pos[k] = evalFor(k)
+		}
+		ord := rune(fxOrdinary)
+		for keys[ord] {
+			ord++
+		}
+		t.def, t.defPos = evalFor(ord)
+		t.hasDef = true
 		if good && t.consts > 0 {
 			out = append(out, t)
 		}
@@ -283,10 +396,46 @@ func ruleEsc1(c *Ctx) {
 	}
 }
 
+// fxTablesThrough returns the tables of fn or, when fn has none, of the
+// functions of its own package it calls (two levels), with the callee's
+// parameters bound to the constant arguments of the call.
+func fxTablesThrough(c *Ctx, fn *ssa.Function, bind fxBind, depth int) []*fxRuneTable {
+	ts := fxRuneTables(c, fn, bind)
+	if len(ts) > 0 || depth == 0 {
+		return ts
+	}
+	for _, ci := range core.Calls(fn) {
+		call, ok := ci.(*ssa.Call)
+		if !ok {
+			continue
+		}
+		g := core.StaticCallee(call)
+		if g == nil || g == fn || g.Blocks == nil || core.FnPkg(g) != core.FnPkg(fn) {
+			continue
+		}
+		inner := fxBind{}
+		for i, a := range call.Common().Args {
+			if i >= len(g.Params) {
+				break
+			}
+			if r, ok := core.ConstRune(a); ok && fxIsRune(g.Params[i].Type()) {
+				inner[g.Params[i]] = r
+			} else if p, ok := a.(*ssa.Parameter); ok {
+				if r, ok := bind[p]; ok {
+					inner[g.Params[i]] = r
+				}
+			}
+		}
+		c.Touch(g)
+		ts = append(ts, fxTablesThrough(c, g, inner, depth-1)...)
+	}
+	return ts
+}
+
 func fxOneTable(c *Ctx, fn *ssa.Function, what string) *fxRuneTable {
-	ts := fxRuneTables(c, fn)
+	ts := fxTablesThrough(c, fn, nil, 2)
 	if len(ts) != 1 {
-		c.Unknown(c.KeyAt(fn, what+" table"), c.FnPos(fn), fmt.Sprintf("cannot-analyse: expected exactly one rune translation table (switch, if-chain or map literal whose arms write constants), found %d", len(ts)))
+		c.Unknown(c.KeyAt(fn, what+" table"), c.FnPos(fn), fmt.Sprintf("cannot-analyse: expected exactly one rune translation table (switch, if-chain or map literal whose arms write constants) in the function or a helper of its package it calls, found %d", len(ts)))
 		return nil
 	}
 	return ts[0]
